@@ -27,6 +27,8 @@ import (
 	"math/big"
 	"net"
 	"net/http"
+	"os"
+	"path/filepath"
 	"reflect"
 	"strings"
 	"sync"
@@ -347,6 +349,31 @@ func c13(r *ev.Result, tier string) {
 		"transitions = scheduling steps, traces = complete executions against real TLS servers"
 	w := c13NewWorld()
 	defer w.stop()
+	/* The current directory holds a file named like every fingerprint
+	string in use (someone keeps pins in files; curl's --pinnedpubkey takes
+	a file name too), each holding the pin of *another* key: what a string
+	means does not depend on what lies around. */
+	if cwd, err := os.Getwd(); nil == err {
+		planted := ev.Scratch("c13cwd-")
+		defer os.RemoveAll(planted)
+		defer os.Chdir(cwd)
+		os.Chdir(planted)
+		nPlanted := 0
+		for class, fp := range w.pins {
+			if "" == fp {
+				continue
+			}
+			other := w.pins["pinA"]
+			if "A" == w.pinKey[class] {
+				other = w.pins["pinB"]
+			}
+			os.MkdirAll(filepath.Dir(filepath.Clean(fp)), 0o755)
+			if nil == os.WriteFile(fp, []byte(other+"\n"), 0o644) {
+				nPlanted++
+			}
+		}
+		r.Set("files_named_like_fingerprints_in_cwd", nPlanted)
+	}
 	/* net/http initialises DefaultTransport lazily (its HTTP/2 set-up
 	fills TLSClientConfig on first use or Clone); have that happen before
 	the snapshot, it is the library's doing. */
